@@ -7,7 +7,7 @@
    integration models -- these clauses are explored by evaluating the property's own predicate on every generated scene. *)
 From Coq Require Import Reals Lra.
 From Coquelicot Require Import Coquelicot.
-From PB Require Import Ops CLin Model.Trainers Proofs.Trainers Proofs.Separable.
+From PB Require Import Ops CLin Model.Trainers Proofs.Trainers Proofs.Separable Model.LogPdf Proofs.LogPdf.
 
 Open Scope C_scope.
 (* M-step on the true partition: observations z_n = u_n a with |u_n| = 1 (per-frame gains after normalisation) *)
@@ -62,6 +62,16 @@ Theorem C03_watson_vmf_map_true_class_partial (kappa al pij pik lognorm : R) : 0
   ln pik + (kappa * al - lognorm) < ln pij + (kappa * 1 - lognorm).
 Proof. exact (watson_vmf_map kappa al pij pik lognorm). Qed.
 Print Assumptions C03_watson_vmf_map_true_class_partial.
+
+(* GMM with a shared spherical covariance c (the model's gauss_sph_logpdf, i.e. SphericalGaussian.log_pdf): the weighted
+   log-pdf of the class with the (weight-adjusted) nearer mean is larger -- MAP class = nearest prototype *)
+Theorem C03_gmm_spherical_map_true_class_partial (D : nat) (muj muk y : nat -> R) (c pij pik : R) :
+  0 < c -> 0 < pij -> 0 < pik ->
+  rsum D (fun i => (y i - muj i) * (y i - muj i)) + 2 * c * ln (pik / pij)
+    < rsum D (fun i => (y i - muk i) * (y i - muk i)) ->
+  ln pik + gauss_sph_logpdf RO PI D muk y c < ln pij + gauss_sph_logpdf RO PI D muj y c.
+Proof. exact (gmm_sph_map D muj muk y c pij pik). Qed.
+Print Assumptions C03_gmm_spherical_map_true_class_partial.
 
 (* non-vacuity: the property's domain |cos| <= 0.3 (c2 <= 0.09), floor 1e-10, D = 2, equal weights *)
 Example C03_hypotheses_satisfiable :
